@@ -227,6 +227,28 @@ def ops_binary(ir, fr, xc, yc):
             x.underlay(Y())
             return x
         out.append((f"underlay {form}", impl, lambda: lay(xb, yb), True))
+    # purity of binary forms: the other operand is never modified (values, span, number of variants); functional forms keep the first too
+    for opname in ("overlay", "underlay"):
+        for form in ("function", "method"):
+            def impl(opname=opname, form=form):
+                x, y = X(), Y()
+                if form == "function":
+                    getattr(ir, opname)(x, y)
+                else:
+                    getattr(x, opname)(y)
+                return y
+            out.append((f"{opname} {form}: other operand unchanged", impl, lambda: dict(ycells), True))
+        def impl(opname=opname):
+            x, y = X(), Y()
+            getattr(ir, opname)(x, y)
+            return x
+        out.append((f"{opname} function: first operand unchanged", impl, lambda: dict(xcells), True))
+    for name, f in (("x+y", lambda a, c: a + c), ("x*y", lambda a, c: a * c)):
+        def impl(f=f):
+            x, y = X(), Y()
+            f(x, y)
+            return y
+        out.append((f"{name}: other operand unchanged", impl, lambda: dict(ycells), True))
     # hstack
     def impl():
         return X().hstack(Y())
